@@ -40,11 +40,12 @@ def grouping(draw, n, allow_default=True, force=None, min_groups=1):
     bys = ['grp', 'grp', 'index'] + (['default'] if allow_default else [])
     by = force or draw(st.sampled_from(bys))
     if by == 'default':
-        return dict(by='default', kind='int', container='list', values=list(range(n)))
+        return dict(by='default', kind='int', container='list', values=list(range(n)),
+                    as_none=draw(st.integers(0, 3)) == 0)
     kind = 'int' if by == 'index' else draw(st.sampled_from(['int', 'str']))
     _, labs = draw(gen.label_set(n, kinds=(kind,)))
     mode = draw(st.sampled_from(['repeated', 'repeated', 'repeated', 'repeated', 'repeated',
-                                 'unique', 'unique', 'unique-sorted', 'one']))
+                                 'unique', 'unique', 'unique-sorted', 'unique-sorted', 'one']))
     lo = min(max(1, min_groups), n)
     if mode == 'unique-sorted':
         # the everyday case: one distinct label per item, stored in ascending order
@@ -63,7 +64,10 @@ def grouping(draw, n, allow_default=True, force=None, min_groups=1):
         base = list(range(m)) + extra
         assign = [base[i] for i in perm]
     values = [labs[a] for a in assign]
-    return dict(by=by, kind=kind, container=draw(gen.container), values=values)
+    # pattern_descriptor=None is documented to mean 'index' (add_pattern_index): also for an
+    # object whose 'index' is not 0..n-1 (a subset, or a bootstrap sample resampled again)
+    return dict(by=by, kind=kind, container=draw(gen.container), values=values,
+                as_none=(by == 'index' and draw(st.integers(0, 2)) == 0))
 
 
 def _size(lo, hi):
@@ -166,6 +170,8 @@ def kwargs_for(spec, sampler_dims, names=('rdm_descriptor', 'pattern_descriptor'
         kw[names[0]] = desc_name(spec, 'rdm')
     if 'pat' in sampler_dims and spec['pat']['by'] != 'default':
         kw[names[1]] = desc_name(spec, 'pat')
+    if 'pat' in sampler_dims and spec['pat'].get('as_none') and names[1] == 'pattern_descriptor':
+        kw[names[1]] = None
     return kw
 
 
